@@ -1007,8 +1007,33 @@ class Engine:
                 r = h(self, st, fr, val, ty, t)
                 if r is not NotImplemented:
                     return r
+        for kind, n in self._pending_leaves(st, val):
+            # a user future that was started but has not completed goes away with the value that owns it
+            st.event('abandon', kind, n, _short_ty(ty))
         st.event('drop', _short_ty(ty), _describe(val))
         return None
+
+    def _pending_leaves(self, st, val, depth=0, seen=None):
+        """(kind, n) of the user futures owned by `val` that were created but have not completed"""
+        seen = set() if seen is None else seen
+        out = []
+        if depth > 6:
+            return out
+        if isinstance(val, VRef) and val.root[0] == 'obj' and val.mut and not val.path:
+            oid = val.root[1]
+            if oid in seen:
+                return out
+            seen.add(oid)
+            return self._pending_leaves(st, st.objs.get(oid), depth + 1, seen)
+        if isinstance(val, VAgg):
+            ex = val.extra if isinstance(val.extra, dict) else None
+            if val.name == 'leaf' and ex and ex.get('kind') in ('task', 'item', 'started', 'stopped', 'finished'):
+                if not ex.get('done'):
+                    out.append((ex['kind'], ex.get('n')))
+                return out
+            for f in val.fields.values():
+                out += self._pending_leaves(st, f, depth + 1, seen)
+        return out
 
     # ---- calls
     def do_call(self, st, fr, t):
